@@ -8,6 +8,7 @@ import Driver.Handshake
 import Driver.Conn
 import Driver.Deque
 import Driver.Faults
+import Driver.Sess
 
 open Drv
 
@@ -26,6 +27,7 @@ def dispatch (line : String) : Res :=
   | "conn" :: args => runConn args
   | "deque" :: args => runDeque args
   | "faults" :: args => runFaults args
+  | "sess" :: args => runSess args
   | _ => bad "unknown-suite"
 
 partial def loop (hin hout : IO.FS.Stream) : IO Unit := do
